@@ -457,7 +457,12 @@ def run_c04(cases):
         st1, d1, _ = split_model_output(o1, c["scenario"], 0)
         want = ast_dump(c["rules"], "c100", CORE)
         def unflag(e):
-            return (["alt", 0] + e[2:]) if isinstance(e, list) and e and e[0] == "alt" else e
+            # first-match flags are configuration, not part of what the text denotes (they are compared against the
+            # models below); a flagged alternation can sit below the top after a later "=/", so drop them at every depth
+            if not isinstance(e, list):
+                return e
+            e = [unflag(x) for x in e]
+            return (["alt", 0] + e[2:]) if e and e[0] == "alt" else e
         got = {k: unflag(v["def"]) for k, v in dump.items() if k.startswith("c100|") and v["def"] is not None}
         stats["accepted"] += all(s == "OK" for s in st)
         pref = ["c100|", "c102|", "core|", "meta|"]
